@@ -65,6 +65,9 @@ class PestGrammarError(Exception):
 
         if target_line_index == -1:
             # The end of the text.
+            if lines[-1] != text.splitlines()[-1]:
+                # After a trailing newline, on an empty last line.
+                return len(lines) + 1, 0, lines[-1].rstrip(), "", ""
             target_line_index = len(lines) - 1
 
         # Line number (1-based)
